@@ -13,7 +13,7 @@ from concurrent.futures import ThreadPoolExecutor
 
 from tools import common, shroudrun
 from tools.gen import cxxgen
-from tools.gen.cxxgen import DBL, ENUM, INT_T, STRS, lit, rep, show
+from tools.gen.cxxgen import DBL, ENUM, ENUMS, INT_T, STRS, default_value, lit, rep, show
 
 SAN = ["-fsanitize=address,undefined", "-fno-sanitize-recover=undefined", "-g", "-O0"]
 IDS = (11, 22)
@@ -195,6 +195,8 @@ def subject_header(spec):
            "struct Pt { int x; double y; };"]
     for c in spec.classes:
         out.append("class %s {\npublic:\n    int id;" % c)
+        if c == "K0" and spec.use_cls_enum:
+            out.append("    enum Mood { %s };" % ", ".join("%s = %d" % (n.split("::")[-1], v) for n, v in ENUMS["K0::Mood"]))
         out.append("    static int &last() { static int v = -1; return v; }")
         out.append("    %s(int a, bool) : id(a) {}" % c)
         if not any(f.cls == c and f.kind == "ctor" and not f.params for f in spec.funcs):
@@ -219,6 +221,8 @@ def subject_header(spec):
             out += decoys(spec, f, False)
     if spec.ns:
         out.append("namespace %s {" % spec.ns)
+        if spec.use_ns_enum:
+            out.append("enum Shade { %s };" % ", ".join("%s = %d" % (n.split("::")[-1], v) for n, v in ENUMS["ns1::Shade"]))
         for f in spec.funcs:
             if f.ns:
                 out.append(cxx_function(f, False))
@@ -343,7 +347,7 @@ def emit_call(E, f, cname, ndef, tt, rnd, self_obj=None):
             after.append((i, 'printf("[%%s]", %s);' % v))
             exp_out.append((i, "[%s]" % (val if p.intent == "in" else f.consts[p.name])))
         elif p.fam == "enum":
-            val = pick([m[1] for m in ENUM], rnd, i)
+            val = pick([m[1] for m in ENUMS[p.t]], rnd, i)
             vals[p.name] = val
             if p.mode == "val":
                 args.append("%d" % val)
@@ -374,7 +378,8 @@ def emit_call(E, f, cname, ndef, tt, rnd, self_obj=None):
             exp_in.append("#%d" % IDS[0])
     # defaults not supplied are filled in by C++
     for p, dv in f.defaults[ndef:]:
-        exp_in.append(rep(p.t, int(dv)))
+        v_ = default_value(p, dv)
+        exp_in.append("%d" % v_ if p.fam == "bool" else rep(p.t, v_))
     this = "-"
     if f.kind == "ctor":
         this = "new"
